@@ -22,7 +22,9 @@ HOSTILE_LHS = ['class', 'def', 'None', 'True', 'lambda', 'import', 'is', 'in', '
                '.', '..', 'a.', '.a', 'a..b', 'a.0', 'a.b.0', '0.a', 'a.b.c.d.e', 'a.-1', 'a.b.', 'b.None',
                "'", '"', "'a", "a'", '"a', "''", '""', "'''", "'a'b'", "'a\"", 'a\'b', "b'x'", "r'x'", "f'x'", "u'x'", "'\\'",
                '\\', '\\n', 'a\\', '#', 'a#b', '$', 'a;b', 'a,b', ',', 'a=b', '`a`', 'a?b', 'é', 'λ.b', 'a.é', '中',
-               '[' * 60 + ']' * 60, '[' * 300, '0x' + 'f' * 3600, '0b' + '1' * 15000, '9' * 5000, '0o' + '7' * 5000, '-' * 50 + '1', 'not.a', 'and.b', 'a.and', 'rule', 'role', 'http', '__class__', 'a.__class__', 'roles', 'roles.0']
+               '[' * 60 + ']' * 60, '[' * 300, '0x' + 'f' * 3600, '0b' + '1' * 15000, '9' * 5000, '0o' + '7' * 5000, '-' * 50 + '1', 'not.a', 'and.b', 'a.and', 'rule', 'role', 'http', '__class__', 'a.__class__', 'roles', 'roles.0',
+               # names of Python attributes of the values a path may stop at (a path never reaches INTO a scalar)
+               'real', 'imag', 'numerator', 'denominator', 'real.real', '__doc__', '__class__.__name__', 'b.real', 'keys', 'values', 'upper']
 HOSTILE_RHS = ['v', '1', 'None', 'True', "'", '"', '[', '{', '}', ']', '\\', 'class', '1+', 'a.0', ':', '::', 'a:b', '#', 'é']
 KINDS_OK = ['role', 'rule', 'http', 'https']   # kinds with their own handler (remote checks are C16's subject); everything else is a generic check
 
@@ -109,8 +111,18 @@ def run(ctx):
             call['credskind'] = credskind
             if call['by'] == 'name' and rng.random() < 0.2:
                 call.update({'authorize': 1, 'doraise': 1, 'custom': 1, 'xargs': [1, 'two'], 'xkw': {'k': 3}})
-            cases.append(ec.enforce_case(rules, call, target, creds, dflt=rng.choice([('opt', None), ('name', names[-1])]),
-                                         want='c14', creds_obj=creds_obj, registered=[(n, []) for n in names] if call.get('authorize') else ()))
+            registered = [(n, []) for n in names] if call.get('authorize') else ()
+            escope = True
+            cr = creds
+            if rng.random() < 0.25:
+                # scope types on the registered policies, and scope attributes of any JSON type in the credentials
+                registered = [(n, rng.choice([['project'], ['system'], ['domain'], ['system', 'domain']])) for n in names]
+                escope = rng.random() < 0.7
+                cr = dict(creds)
+                cr[rng.choice(['system', 'system_scope', 'domain_id', 'project_id'])] = rng.choice(
+                    [{'all': True}, ['all'], 1, True, 'all', {}, 0, 7, 1.5, None, [], {'id': 'd'}, 'p'])
+            cases.append(ec.enforce_case(rules, call, target, cr, dflt=rng.choice([('opt', None), ('name', names[-1])]),
+                                         want='c14', creds_obj=creds_obj, registered=registered, enforce_scope=escope))
         for n, t in rules:
             for sx in ev.tree_strings(t, []):
                 lhs_seen.add(sx)
@@ -121,11 +133,13 @@ def run(ctx):
             continue
         for stop in (stops if not q else rng.sample(stops, 4)):
             for pre in ('', 'a.'):
-                leaf = ev.generic(pre + lhs, 'v')
-                if leaf['_lhs'].split(':')[0] in KINDS_OK:
-                    continue
-                cases.append(ec.enforce_case([('p:x', leaf)], {'by': 'name', 'name': 'p:x'}, {}, {'a': stop, 'roles': []},
-                                             dflt=('opt', None), want='c14'))
+                # right side: a fixed word, or the string form of the value the path stops at (and of 0 / int)
+                for rhs in ['v'] + ([str(stop), '0', 'int'] if isinstance(stop, (int, float, bool)) and not (q and rng.random() < 0.5) else []):
+                    leaf = ev.generic(pre + lhs, rhs)
+                    if leaf['_lhs'].split(':')[0] in KINDS_OK:
+                        continue
+                    cases.append(ec.enforce_case([('p:x', leaf)], {'by': 'name', 'name': 'p:x'}, {}, {'a': stop, 'roles': []},
+                                                 dflt=('opt', None), want='c14'))
     bad = ec.judge(ctx, cases)
     for c in bad:
         o = c['obs']
